@@ -1,12 +1,10 @@
-(* C03 - proofs about the GENERATED element-wise kernels (real-number reading).
-   Part A: case-complete characterisation of the two thresholding kernels against an independent three-case
-           specification (out of refractory & reaches threshold / out of refractory & below / refractory).
-   Part D: the integration kernels equal the documented update equations; the linear one is the exact solution
-           of its differential equation (so it composes over time steps), the other two are Euler steps.
-   Part E: the adaptation kernels are frozen during the refractory period; closed form of the spike-driven one. *)
+(* C03 - proofs about the GENERATED thresholding kernels (real-number reading): case-complete characterisation of
+   voltage_thresholding_constant / voltage_thresholding_linear against the independent three-case specification
+   NeuronSpec.thr_spec (out of refractory & reaches threshold / out of refractory & below / refractory), and its
+   one-step consequences. *)
 From Coq Require Import List ZArith Bool Reals Lra Lia.
 From Flocq Require Import Core.Raux.
-From Inferno Require Import Base.Num Base.NumR Gen.NeuronDynamics Gen.NeuronAdaptation.
+From Inferno Require Import Base.Num Base.NumR Gen.NeuronDynamics Gen.NeuronAdaptation C03.Neuron C03.NeuronSpec.
 Import ListNotations.
 Open Scope R_scope.
 Local Notation exp := Rtrigo_def.exp.
@@ -19,15 +17,6 @@ Proof.
   - rewrite Rmax_left; lra.
 Qed.
 
-(* The specification: remaining refractory time r, step dt.  The neuron is OUT of its refractory period in
-   this step iff r - dt <= 0.  [dyn] is the integration of an input current into the voltage of the
-   previous step; [held] is the voltage kept during the refractory period (None: not kept - the voltage
-   integrates a zero input instead); [reset_of] maps the integrated voltage to the reset voltage. *)
-Definition thr_spec (reset_of : R -> R) (x r : R) (dyn : R -> R) (held : option R) (dt th Rt : R)
-  : bool * R * R :=
-  if Rle_dec (r - dt) 0 then
-    if Rle_dec th (dyn x) then (true, reset_of (dyn x), Rt) else (false, dyn x, 0)
-  else (false, match held with Some v => v | None => dyn 0 end, r - dt).
 
 Theorem thresholding_constant_spec :
   forall x r dyn held dt reset th Rt,
@@ -113,8 +102,8 @@ Qed.
 End SpecFacts.
 
 (* ---- the same facts stated directly about the generated kernels ---- *)
-Definition vtc := voltage_thresholding_constant RN.
-Definition vtl := voltage_thresholding_linear RN.
+Local Notation vtc := (voltage_thresholding_constant RN).
+Local Notation vtl := (voltage_thresholding_linear RN).
 
 (* spike  <=>  out of the refractory period (max(refrac - dt, 0) = 0)  and  integrated voltage >= threshold *)
 Theorem spike_iff :
@@ -122,7 +111,7 @@ Theorem spike_iff :
     (forall reset, fst (fst (vtc x r dyn held dt reset th Rt)) = true <-> (Rmax (r - dt) 0 = 0 /\ th <= dyn x)) /\
     (forall rest slope icpt, fst (fst (vtl x r dyn held dt rest slope icpt th Rt)) = true <-> (Rmax (r - dt) 0 = 0 /\ th <= dyn x)).
 Proof.
-  intros; split; intros; unfold vtc, vtl;
+  intros; split; intros; 
     [rewrite thresholding_constant_spec | rewrite thresholding_linear_spec]; apply spec_spike_iff.
 Qed.
 
@@ -134,7 +123,7 @@ Theorem spike_resets :
     (forall rest slope icpt, let o := vtl x r dyn held dt rest slope icpt th Rt in
        fst (fst o) = true -> snd (fst o) = rest + slope * (dyn x - rest) - icpt /\ snd o = Rt).
 Proof.
-  intros; split; intros until o; subst o; unfold vtc, vtl;
+  intros; split; intros until o; subst o; 
     [rewrite thresholding_constant_spec | rewrite thresholding_linear_spec]; intros H;
     apply spec_spike_resets in H; exact H.
 Qed.
@@ -149,7 +138,7 @@ Theorem nospike_update :
     (forall rest slope icpt, let o := vtl x r dyn held dt rest slope icpt th Rt in
        fst (fst o) = false -> snd o = Rmax (r - dt) 0 /\ snd (fst o) = upd).
 Proof.
-  intros; split; intros until o; subst o upd; unfold vtc, vtl;
+  intros; split; intros until o; subst o upd; 
     [rewrite thresholding_constant_spec | rewrite thresholding_linear_spec]; intros H;
     apply spec_nospike in H; exact H.
 Qed.
@@ -160,7 +149,7 @@ Theorem refrac_nonneg :
     (forall reset, 0 <= snd (vtc x r dyn held dt reset th Rt)) /\
     (forall rest slope icpt, 0 <= snd (vtl x r dyn held dt rest slope icpt th Rt)).
 Proof.
-  intros; split; intros; unfold vtc, vtl;
+  intros; split; intros; 
     [rewrite thresholding_constant_spec | rewrite thresholding_linear_spec]; apply spec_refrac_nonneg; assumption.
 Qed.
 
@@ -170,7 +159,7 @@ Theorem refrac_le_refrac_t :
     (forall reset, snd (vtc x r dyn held dt reset th Rt) <= Rt) /\
     (forall rest slope icpt, snd (vtl x r dyn held dt rest slope icpt th Rt) <= Rt).
 Proof.
-  intros; split; intros; unfold vtc, vtl;
+  intros; split; intros; 
     [rewrite thresholding_constant_spec | rewrite thresholding_linear_spec]; apply spec_refrac_le; assumption.
 Qed.
 
@@ -180,7 +169,7 @@ Theorem spike_attr_eq_output_step :
     (forall reset, let o := vtc x r dyn held dt reset th Rt in eqb RN (snd o) Rt = fst (fst o)) /\
     (forall rest slope icpt, let o := vtl x r dyn held dt rest slope icpt th Rt in eqb RN (snd o) Rt = fst (fst o)).
 Proof.
-  intros; split; intros; subst o; unfold vtc, vtl; rn_simpl;
+  intros; split; intros; subst o;  rn_simpl;
     [rewrite thresholding_constant_spec | rewrite thresholding_linear_spec]; apply spec_spike_attr; assumption.
 Qed.
 
@@ -190,116 +179,9 @@ Theorem spike_attr_refrac0_always_true :
     (forall reset, eqb RN (snd (vtc x r dyn held dt reset th 0)) 0 = true) /\
     (forall rest slope icpt, eqb RN (snd (vtl x r dyn held dt rest slope icpt th 0)) 0 = true).
 Proof.
-  intros; split; intros; unfold vtc, vtl; rn_simpl;
+  intros; split; intros;  rn_simpl;
     [rewrite thresholding_constant_spec | rewrite thresholding_linear_spec]; unfold thr_spec;
     (destruct (Rle_dec (r - dt) 0); [|lra]); destruct (Rle_dec th (dyn x)); cbn;
     destruct (Reqb'_spec 0 0); try reflexivity; lra.
 Qed.
 
-(* ------------------------------------------------------------------ Part D: integration kernels *)
-Definition vil := voltage_integration_linear RN.
-Definition viq := voltage_integration_quadratic RN.
-Definition vie := voltage_integration_exponential RN.
-
-(* documented: V(t+dt) = [V(t) - V_rest - R I] exp(-dt/tau) + V_rest + R I *)
-Theorem integration_linear_formula :
-  forall I v dt tau rest Rm : R,
-    vil I v dt tau rest Rm = (v - rest - Rm * I) * exp (- dt / tau) + rest + Rm * I.
-Proof. intros. unfold vil, voltage_integration_linear. rn_simpl. ring. Qed.
-
-(* documented: Euler step of  tau dV/dt = a (V - V_rest)(V - V_crit) + R I *)
-Theorem integration_quadratic_euler :
-  forall I v dt rest crit a tau Rm : R,
-    viq I v dt rest crit a tau Rm = v + dt * ((a * (v - rest) * (v - crit) + Rm * I) / tau).
-Proof. intros. unfold viq, voltage_integration_quadratic. rn_simpl. unfold Rdiv. ring. Qed.
-
-(* documented: Euler step of  tau dV/dt = -(V - V_rest) + D exp((V - V_T)/D) + R I *)
-Theorem integration_exponential_euler :
-  forall I v dt rest rheo D tau Rm : R,
-    vie I v dt rest rheo D tau Rm = v + dt * ((- (v - rest) + D * exp ((v - rheo) / D) + Rm * I) / tau).
-Proof. intros. unfold vie, voltage_integration_exponential. rn_simpl. unfold Rdiv. ring. Qed.
-
-(* The linear kernel is EXACT in the step size: integrating s1 and then s2 under a constant input is
-   integrating s1 + s2 (so the result does not depend on how the interval is cut into steps). *)
-Theorem integration_linear_semigroup :
-  forall I v s1 s2 tau rest Rm : R,
-    vil I (vil I v s1 tau rest Rm) s2 tau rest Rm = vil I v (s1 + s2) tau rest Rm.
-Proof.
-  intros. rewrite !integration_linear_formula.
-  replace (- (s1 + s2) / tau) with (- s1 / tau + - s2 / tau) by (unfold Rdiv; ring).
-  rewrite exp_plus. rn_simpl. ring.
-Qed.
-
-Theorem integration_linear_zero_step :
-  forall I v tau rest Rm : R, vil I v 0 tau rest Rm = v.
-Proof.
-  intros. rewrite integration_linear_formula. replace (- 0 / tau) with 0 by (unfold Rdiv; ring).
-  rewrite exp_0. rn_simpl. ring.
-Qed.
-
-(* n steps under a constant input: closed form *)
-Theorem integration_linear_iterated :
-  forall (I dt tau rest Rm : R) (n : nat) (v : R),
-    Nat.iter n (fun u => vil I u dt tau rest Rm) v
-    = (v - rest - Rm * I) * exp (- (INR n * dt) / tau) + rest + Rm * I.
-Proof.
-  intros I dt tau rest Rm n. induction n as [|n IH]; intros v.
-  - simpl. replace (- (0 * dt) / tau) with 0 by (unfold Rdiv; ring). rewrite exp_0. rn_simpl. ring.
-  - change (Nat.iter (S n) (fun u => vil I u dt tau rest Rm) v) with (vil I (Nat.iter n (fun u => vil I u dt tau rest Rm) v) dt tau rest Rm). rewrite IH, integration_linear_formula, S_INR.
-    replace (- ((INR n + 1) * dt) / tau) with (- (INR n * dt) / tau + - dt / tau) by (unfold Rdiv; ring).
-    rewrite exp_plus. rn_simpl. ring.
-Qed.
-
-Lemma exp_neg_lt_1 x : x < 0 -> 0 < exp x < 1.
-Proof. intros H. split; [apply exp_pos|]. rewrite <- exp_0. apply exp_increasing. exact H. Qed.
-
-(* a leaky integrator whose steady state rest + R I stays below the threshold never reaches it from below *)
-Theorem integration_linear_subthreshold :
-  forall I v dt tau rest Rm th : R,
-    0 < dt -> 0 < tau -> v < th -> rest + Rm * I < th -> vil I v dt tau rest Rm < th.
-Proof.
-  intros I v dt tau rest Rm th Hdt Htau Hv Hs. rewrite integration_linear_formula. rn_simpl.
-  assert (Hx : - dt / tau < 0).
-  { unfold Rdiv. assert (0 < / tau) by (apply Rinv_0_lt_compat; lra). nra. }
-  destruct (exp_neg_lt_1 _ Hx) as [H0 H1]. set (l := exp (- dt / tau)) in *.
-  replace ((v - rest - Rm * I) * l + rest + Rm * I) with (l * v + (1 - l) * (rest + Rm * I)) by ring.
-  nra.
-Qed.
-
-(* the distance to the steady state contracts by exp(-dt/tau) in every step *)
-Theorem integration_linear_contracts :
-  forall I v dt tau rest Rm : R,
-    vil I v dt tau rest Rm - (rest + Rm * I) = (v - (rest + Rm * I)) * exp (- dt / tau).
-Proof. intros. rewrite integration_linear_formula. rn_simpl. ring. Qed.
-
-(* ------------------------------------------------------------------ Part E: adaptation kernels *)
-Definition acl := adaptive_currents_linear RN.
-Definition atv := adaptive_thresholds_linear_voltage RN.
-Definition ats := adaptive_thresholds_linear_spike RN.
-Definition ind (b : bool) : R := if b then 1 else 0.
-
-(* during the absolute refractory period (remaining time > 0) the adaptation dynamics are frozen: only the
-   post-spike jump is applied *)
-Theorem adaptation_frozen_in_refractory :
-  forall (a v : R) (s : bool) (dt rest tc vc inc r : R), 0 < r ->
-    acl a v s dt rest tc vc inc (Some r) = a + inc * ind s /\
-    ats a s dt tc inc (Some r) = a + inc * ind s /\
-    (forall ar rr : R, atv a v dt rest ar rr None (Some s) (Some r) = a) /\
-    (forall ar rr m : R, atv a v dt rest ar rr (Some m) (Some s) (Some r) = if s then Rmax a m else a).
-Proof.
-  intros. unfold acl, ats, atv, adaptive_currents_linear, adaptive_thresholds_linear_spike,
-    adaptive_thresholds_linear_voltage, ind. repeat split; intros; rewrite ?tmax_RN; rn_unfold;
-    destruct (Rltb'_spec 0 r); try lra; destruct s; cbn [negb]; reflexivity.
-Qed.
-
-(* outside the refractory period (or without locking) they follow the documented update equations *)
-Theorem adaptation_active :
-  forall (a v : R) (s : bool) (dt rest tc vc inc : R) (ro : option R), (match ro with Some r => r <= 0 | None => True end) ->
-    acl a v s dt rest tc vc inc ro = a + dt / tc * (vc * (v - rest) - a) + inc * ind s /\
-    ats a s dt tc inc ro = a * exp (- dt / tc) + inc * ind s /\
-    (forall ar rr : R, atv a v dt rest ar rr None (Some s) ro = a + dt * (ar * (v - rest) - rr * a)).
-Proof.
-  intros. unfold acl, ats, atv, adaptive_currents_linear, adaptive_thresholds_linear_spike,
-    adaptive_thresholds_linear_voltage, ind. repeat split; intros; destruct ro as [r|]; rn_unfold;
-    try (destruct (Rltb'_spec 0 r); [lra|]); destruct s; reflexivity.
-Qed.
